@@ -192,8 +192,17 @@ def r16_3(ctx):
                 found = True
                 facts = enclosing_facts(f, x, fd)
                 expr = inline(fields[0][1], fd)
+                exceeded = False
+                if isinstance(expr, ast.IfExp):
+                    # `0 if N is None else len(obj) - N` under the guard `<that> > 0`: the zero arm cannot be positive, so on the
+                    # guarded path the count is the other arm and it being positive says the size exceeds N
+                    arms = [expr.body, expr.orelse]
+                    zero = [a for a in arms if isinstance(a, ast.Constant) and a.value == 0]
+                    if len(zero) == 1 and (facts.get(f"({norm(expr)}) > 0") is True or facts.get(f"{norm(expr)} > 0") is True or facts.get(f"{norm(fields[0][1])} > 0") is True):
+                        expr = [a for a in arms if a is not zero[0]][0]
+                        exceeded = True
                 ok = isinstance(expr, ast.BinOp) and isinstance(expr.op, ast.Sub) and norm(expr.left) == "len(obj)" and {norm(expr.right)} == bounds
-                ok = ok and (facts.get(f"len(obj) > {norm(expr.right)}") is True or facts.get(f"{norm(expr.right)} < len(obj)") is True)
+                ok = ok and (exceeded or facts.get(f"len(obj) > {norm(expr.right)}") is True or facts.get(f"{norm(expr.right)} < len(obj)") is True)
                 ctx.check(ok, f.fq, short(x), f"{m.relpath}:{x.lineno}", f"omitted items = len(obj) - {sorted(bounds)} (the islice bound), only when exceeded",
                           f"the abbreviation marker reports `{norm(expr)}` omitted items, but the items shown are limited by islice(..., {sorted(bounds)}) of len(obj) items (or the marker is not guarded by len(obj) > that bound): the count does not match what was left out")
     ctx.check(found, f.fq, "abbreviation marker", f.where, "abbreviation marker present", "no '... +N' marker is appended when max_length cuts the container")
@@ -349,10 +358,42 @@ def r16_5(ctx):
               "Node.check_length no longer measures the tokens produced by iter_tokens(): a separately maintained length (e.g. a cached per-node width) can disagree with what is printed - such as the trailing comma of a one-element tuple - so a container stays on one line although it is wider than max_width")
     if uses_tokens:
         if len(loops) == 1 and norm(loops[0].iter) == "self.iter_tokens()":
-            acc_ok = any(isinstance(b, ast.AugAssign) and isinstance(b.op, ast.Add) and norm(b.value) == f"cell_len({norm(loops[0].target)})" for b in loops[0].body)
-            src = norm(f.node)
-            ctx.check(acc_ok and "total_length = start_length" in src and "if total_length > max_length" in src, f.fq, "start_length / max_length", f.where, "every token's cell_len is added to the prefix length and compared with the limit",
-                      "check_length does not add cell_len of every token to start_length or does not compare with max_length")
+            # the running total: an accumulator moved by cell_len(token) each round and tested inside the loop. With S = the sum so
+            # far: counting up  acc = init + S, test acc > X;  counting down  acc = init - S, test acc < X.  Either way the test
+            # must say  start_length + S > max_length  (linear forms over the parameters)
+            from ..linear import lin as _lin, eq as _leq, _add as _ladd
+            lp = loops[0]
+            tok = norm(lp.target)
+            steps = [b for b in lp.body if isinstance(b, ast.AugAssign) and isinstance(b.op, (ast.Add, ast.Sub)) and isinstance(b.target, ast.Name)]
+            if len(steps) != 1:
+                raise AnalysisError("Node.check_length: expected one accumulator update per token")
+            stp = steps[0]
+            acc = stp.target.id
+            if norm(stp.value) != f"cell_len({tok})":
+                ctx.violation(f.fq, short(stp), f"{m.relpath}:{stp.lineno}", f"`{short(stp)}` does not move the running length by cell_len of the token: the fits-on-one-line test measures something else than what is printed")
+            else:
+                inits = [x for x in f.node.body if isinstance(x, (ast.Assign, ast.AnnAssign)) and norm(x.targets[0] if isinstance(x, ast.Assign) else x.target) == acc and x.value is not None]
+                tests = [t for b in lp.body for t in ast.walk(b) if isinstance(t, ast.Compare) and len(t.ops) == 1 and (norm(t.left) == acc or norm(t.comparators[0]) == acc)]
+                if len(inits) != 1 or len(tests) != 1:
+                    raise AnalysisError("Node.check_length: accumulator initialisation / threshold test not found in the expected roles")
+                t = tests[0]
+                other_side = t.comparators[0] if norm(t.left) == acc else t.left
+                op = type(t.ops[0])
+                if norm(t.left) != acc:
+                    op = {ast.Gt: ast.Lt, ast.Lt: ast.Gt, ast.GtE: ast.LtE, ast.LtE: ast.GtE}.get(op, op)
+                want = {"start_length": 1, "max_length": -1}
+                up = isinstance(stp.op, ast.Add)
+                diff = _ladd(_lin(inits[0].value), _lin(other_side), -1) if up else _ladd(_lin(other_side), _lin(inits[0].value), -1)
+                strict = (op is ast.Gt) if up else (op is ast.Lt)
+                loose = (op is ast.GtE) if up else (op is ast.LtE)
+                if strict and _leq(diff, want):
+                    ctx.ok(f.where, "every token's cell_len is added to the prefix length and compared with the limit", f.fq)
+                elif loose and _leq(diff, _ladd(want, {"": 1}, -1)):
+                    ctx.ok(f.where, "every token's cell_len is added to the prefix length and compared with the limit (>= limit + 1 form)", f.fq)
+                elif (strict or loose):
+                    ctx.violation(f.fq, short(t), f"{m.relpath}:{t.lineno}", f"the length test `{norm(t)}` with `{short(inits[0])}` does not say start_length + (cells so far) > max_length: the container is kept on one line that does not fit, or expanded although it fits")
+                else:
+                    raise AnalysisError(f"Node.check_length: threshold test `{norm(t)}` is not a comparison this rule reads")
         else:
             from ..astutil import inline as _inl, single_defs as _sdf
             rets = [r for r in walk_local(f.node) if isinstance(r, ast.Return) and r.value is not None]
@@ -363,7 +404,21 @@ def r16_5(ctx):
                 raise AnalysisError(f"Node.check_length: the accumulation `{closed[:160]}` over iter_tokens() is written in a form this rule does not interpret; the measure = render clause cannot be decided")
             ctx.ok(f.where, "running sum of cell_len over the printed tokens, seeded with start_length, compared with max_length", f.fq)
     g = m.fn("_Line.check_length")
-    ctx.check("len(self.whitespace) + cell_len(self.text) + cell_len(self.suffix)" in norm(g.node), g.fq, "start_length", g.where, "indent, text and suffix are counted", "_Line.check_length does not count whitespace + text + suffix")
+    from ..astutil import inline as _inl165, single_defs as _sdf165
+    from ..linear import lin as _lin165, eq as _leq165
+    sd165 = _sdf165(g.node)
+    calls165 = [c for c in walk_local(g.node) if isinstance(c, ast.Call) and isinstance(c.func, ast.Attribute) and c.func.attr == "check_length" and c.args]
+    if len(calls165) != 1:
+        raise AnalysisError("_Line.check_length: the call of Node.check_length was not found")
+    a0 = _inl165(calls165[0].args[0], sd165)
+    want165 = {"len(self.whitespace)": 1, "cell_len(self.text)": 1, "cell_len(self.suffix)": 1}
+    got165 = _lin165(a0)
+    if _leq165(got165, want165):
+        ctx.ok(g.where, "indent, text and suffix are counted", g.fq)
+    elif set(got165) <= set(want165) | {""} or any("len(self." in k for k in got165):
+        ctx.violation(g.fq, short(calls165[0]), g.where, f"_Line.check_length starts the count at `{norm(a0)}`, not at whitespace (characters) + text (cells) + suffix (cells): the fits-on-one-line decision ignores part of the line or measures it in the wrong unit")
+    else:
+        raise AnalysisError(f"_Line.check_length: the start length `{norm(a0)}` is not read by this rule")
 
 
 def r16_6(ctx):
